@@ -99,8 +99,20 @@ CheckDec(e) ==
   ELSE IF PtsOf(r.g) # {} /\ e.decct # r.g.ct THEN "decoded-coordinate-type"
   ELSE "ok"
 
+\* kind "grid": a lattice geometry (integer ordinates k, |k| <= 16) divided by 10^q, written with precision q and read
+\* back WITH validation.  Whether k is valid is decided exactly by Validity.tla on the integers (scaling does not change
+\* validity); a valid geometry on the grid must come back, accepted by the validating reader, as exactly itself.
+VV == INSTANCE Validity
+CheckGrid(e) ==
+  IF ~VV!PartsValid(e.parts) THEN "skip:invalid"
+  ELSE IF e.err # "" THEN "marshal-error-on-valid-geometry"
+  ELSE IF e.decerr # "" THEN "validating-reader-rejects-valid-geometry-on-the-grid"
+  ELSE IF ~e.same THEN "decoded-geometry-differs-on-the-grid"
+  ELSE "ok"
+
 Check(e) ==
   IF e.panic # "" THEN "panic"
+  ELSE IF e.kind = "grid" THEN CheckGrid(e)
   ELSE IF e.kind = "enc" THEN CheckEnc(e)
   ELSE IF e.kind = "dec" THEN CheckDec(e)
   ELSE IF e.kind = "bad" THEN (IF e.err # "" THEN "ok" ELSE "accepted:" \o e.what)
